@@ -10,6 +10,7 @@ import ast
 
 from ..core import rule, AnalysisError
 from ..engine import flow, cfg as cfgmod
+from ..engine import pattern as P
 from ..engine.facts import dotted, const, src, walk_func, enclosing_stmt
 from . import skeletons as sk
 from .common import calls, contains
@@ -53,8 +54,7 @@ def block_guard(ctx):
     ctx.check(bool(fm) and src(fm[0].right) == "node.funcname", "guard-names-block", db.where(vb), "the guard tests another attribute than the block's own name", "hasattr(parent, <block name>)")
     # named blocks are emitted as top-level render_<name> callables taking **pageargs
     init = db.func("codegen._GenerateRenderMethod.__init__")
-    t = src(init)
-    ctx.check("if node.is_block and (not node.is_anonymous):" in t and "args += ['**pageargs']" in t, "block-callable-pageargs", db.where(init), "named block callables do not accept **pageargs", "render_<block>(context, **pageargs)")
+    ctx.check(P.has(init, "if $n.is_block and not $n.is_anonymous:\n    $a += ['**pageargs']"), "block-callable-pageargs", db.where(init), "named block callables do not accept **pageargs", "render_<block>(context, **pageargs)")
 
 
 @rule("C06.registration", min_instances=7)
@@ -71,12 +71,12 @@ def registration(ctx):
     cn = db.func("codegen._Identifiers._check_name_exists")
     ifs = [i for i in walk_func(cn) if isinstance(i, ast.If)]
     t = src(ifs[0].test).replace("\n", " ") if ifs else ""
-    ok = bool(ifs) and "existing is not None" in t and "existing is not node" in t and "node.is_block or existing.is_block" in t and flow.always_raises(ifs[0].body) and "CompileException" in src(ifs[0])
+    ok = bool(ifs) and P.has(ifs[0].test, "$e is not None") and P.has(ifs[0].test, "$e is not $n") and (P.has(ifs[0].test, "$n.is_block or $e.is_block") or P.has(ifs[0].test, "$e.is_block or $n.is_block")) and flow.always_raises(ifs[0].body) and "CompileException" in src(ifs[0])
     ctx.check(ok, "duplicate-raises", db.where(cn), "duplicate def/block names involving a block do not raise CompileException (test: %s)" % t, "duplicate involving a block -> CompileException")
-    ctx.check("**node.exception_kwargs" in src(cn), "duplicate-position", db.where(cn), "duplicate-name error carries no position", "position of the second definition")
+    ctx.check(P.has(cn, "exceptions.CompileException($m, **node.exception_kwargs)"), "duplicate-position", db.where(cn), "duplicate-name error carries no position", "position of the second definition")
     ex = [s for s in walk_func(cn) if isinstance(s, ast.Assign) and src(s.targets[0]) == "existing"]
     st = [s for s in walk_func(cn) if isinstance(s, ast.Assign) and src(s.targets[0]) == "collection[node.funcname]"]
-    ctx.check(bool(ex) and bool(st) and ex[0].lineno < st[0].lineno and src(ex[0].value) == "collection.get(node.funcname)", "lookup-before-store", db.where(cn), "the existing entry is not read before being overwritten", "existing read before the store")
+    ctx.check(P.has(cn, "$e = $c.get($n.funcname)\n$c[$n.funcname] = $n"), "lookup-before-store", db.where(cn), "the existing entry is not read before being overwritten", "existing read before the store")
     vb = db.func("codegen._Identifiers.visitBlockTag")
     cc = calls(vb, "self._check_name_exists")
     ctx.check(len(cc) >= 2, "block-registers", db.where(vb), "visitBlockTag registers through _check_name_exists %d times (named + anonymous expected)" % len(cc), "named -> topleveldefs, anonymous -> closuredefs")
@@ -87,7 +87,7 @@ def registration(ctx):
     # misplaced named blocks
     rs = [r for r in walk_func(vb) if isinstance(r, ast.Raise)]
     msgs = " ".join(src(r) for r in rs)
-    guard = [i for i in vb.body if isinstance(i, ast.If) and "node is not self.node" in src(i.test) and "not node.is_anonymous" in src(i.test)]
+    guard = [i for i in vb.body if isinstance(i, ast.If) and P.has(i.test, "$n is not self.node") and P.has(i.test, "not $n.is_anonymous")]
     ctx.check(bool(guard), "misplaced.guard", db.where(vb), "no test for a named block nested in another construct", "named block other than the scope's own node")
     if guard:
         t = src(guard[0])
@@ -134,10 +134,9 @@ def getattr_order(ctx):
         ctx.check(bool(inh) and src(inh[0][0]) == "val = getattr(self.inherits, key)", "delegates:" + q.split(".")[1], db.where(fn), "inherited members are not fetched from self.inherits", "getattr(self.inherits, key)")
         if own_test:
             ob = [b for t, b in chain if t == own_test][0]
-            ctx.check(any("functools.partial(callable_, self.context)" in src(s) for s in ob), "binds-context:" + q.split(".")[1], db.where(fn), "own members are not bound to the namespace's context", "partial(callable, self.context)")
+            ctx.check(any(P.has(s, "functools.partial($c, self.context)") for s in ob), "binds-context:" + q.split(".")[1], db.where(fn), "own members are not bound to the namespace's context", "partial(callable, self.context)")
     na = db.func("runtime._NSAttr.__getattr__")
-    t = src(na)
-    ctx.check("while ns:" in t and "hasattr(ns.module, key)" in t and "ns = ns.inherits" in t and "raise AttributeError(key)" in t, "attr-walk", db.where(na), "_NSAttr does not walk module attributes along inherits", "own module attribute, else along inherits, else AttributeError")
+    ctx.check(P.has(na, "while $ns:\n    if hasattr($ns.module, $k):\n        return getattr($ns.module, $k)\n    else:\n        $ns = $ns.inherits\nraise AttributeError($k)") or P.has(na, "while $ns:\n    if hasattr($ns.module, $k):\n        return getattr($ns.module, $k)\n    $ns = $ns.inherits\nraise AttributeError($k)"), "attr-walk", db.where(na), "_NSAttr does not walk module attributes along inherits", "own module attribute, else along inherits, else AttributeError")
 
 
 @rule("C06.wiring", min_instances=7)
@@ -147,10 +146,10 @@ def wiring(ctx):
     fn = db.func("runtime._inherit_from")
     t = src(fn)
     w = [s for s in walk_func(fn) if isinstance(s, ast.While)]
-    ctx.check(bool(w) and src(w[0].test) == "ih.inherits is not None" and src(w[0].body[0]) == "ih = ih.inherits", "walk-to-tail", db.where(fn), "the chain is not walked to its base-most namespace", "ih walks to the tail of self's chain")
-    ctx.check("self_ns = context['self']" in t and "ih = self_ns" in t, "starts-at-self", db.where(fn), "the walk does not start at context['self']", "starts at the most-derived namespace")
+    ctx.check(P.has(fn, "while $ih.inherits is not None:\n    $ih = $ih.inherits"), "walk-to-tail", db.where(fn), "the chain is not walked to its base-most namespace", "ih walks to the tail of self's chain")
+    ctx.check(P.has(fn, "$s = $c['self']\n$ih = $s\nwhile $ih.inherits is not None:\n    ...") or P.has(fn, "$ih = $c['self']\nwhile $ih.inherits is not None:\n    ..."), "starts-at-self", db.where(fn), "the walk does not start at context['self']", "starts at the most-derived namespace")
     lc = [s for s in walk_func(fn) if isinstance(s, ast.Assign) and src(s.targets[0]) == "lclcontext"]
-    ctx.check(bool(lc) and src(lc[0].value) == "context._locals({'next': ih})", "next", db.where(fn), "`next` of the parent is not the previous tail of the chain", "next = previous tail")
+    ctx.check(P.has(fn, "while $ih.inherits is not None:\n    ...\n$l = $c._locals({'next': $ih})"), "next", db.where(fn), "`next` of the parent is not the previous tail of the chain", "next = previous tail")
     a = [s for s in walk_func(fn) if isinstance(s, ast.Assign) and dotted(s.targets[0]) == "ih.inherits"]
     ctx.require(a, "_inherit_from does not assign ih.inherits")
     v = a[0].value
@@ -159,18 +158,17 @@ def wiring(ctx):
     pub = [s for s in walk_func(fn) if isinstance(s, ast.Assign) and len(s.targets) == 2]
     ok = any({src(x) for x in s.targets} == {"context._data['parent']", "lclcontext._data['local']"} and src(s.value) == "ih.inherits" for s in pub)
     ctx.check(ok, "parent-local", db.where(fn), "the namespace stored as ih.inherits is not the one published as `parent` of the child and `local` of the parent", "parent (child's context) = local (parent's context) = ih.inherits")
-    ctx.check("callable_(template, lclcontext)" in t and "if ret:" in t and "return ret" in t, "recursive-inherit", db.where(fn), "the parent's own _mako_inherit is not followed", "follows the parent's <%inherit> first")
+    ctx.check(P.has(fn, "$f = getattr($t.module, '_mako_inherit', None)\nif $f is not None:\n    $r = $f($t, $l)\n    if $r:\n        return $r"), "recursive-inherit", db.where(fn), "the parent's own _mako_inherit is not followed", "follows the parent's <%inherit> first")
     r = [x for x in walk_func(fn) if isinstance(x, ast.Return)]
-    ctx.check(bool(r) and src(r[-1].value) == "(template.callable_, lclcontext)", "returns-base-body", db.where(fn), "does not return the base-most template's body with its context", "returns (base body, its context)")
-    ctx.check("gen_ns(context)" in t, "parent-namespaces", db.where(fn), "the parent's namespaces are not generated", "parent's <%namespace> tags generated")
+    ctx.check(P.has(fn, "$l = $c._locals($_)\n...\nreturn ($t.callable_, $l)"), "returns-base-body", db.where(fn), "does not return the base-most template's body with its context", "returns (base body, its context)")
+    ctx.check(P.has(fn, "$g = getattr($t.module, '_mako_generate_namespaces', None)\nif $g is not None:\n    $g($c)"), "parent-namespaces", db.where(fn), "the parent's namespaces are not generated", "parent's <%namespace> tags generated")
     ps = db.func("runtime._populate_self_namespace")
     t = src(ps)
-    ctx.check("context._data['self'] = context._data['local'] = self_ns" in t, "self-local", db.where(ps), "self and local are not the template's own namespace at the start", "self = local = own namespace")
-    ctx.check("template.module._mako_inherit(template, context)" in t and "return ret" in t and "return (template.callable_, context)" in t, "populate-returns", db.where(ps), "_populate_self_namespace does not return the inherit result or the template's own body", "base body if inheriting, else own body")
+    ctx.check(P.has(ps, "$c._data['self'] = $c._data['local'] = $s") or P.has(ps, "$c._data['local'] = $c._data['self'] = $s"), "self-local", db.where(ps), "self and local are not the template's own namespace at the start", "self = local = own namespace")
+    ctx.check(P.has(ps, "if hasattr($t.module, '_mako_inherit'):\n    $r = $t.module._mako_inherit($t, $c)\n    if $r:\n        return $r\nreturn ($t.callable_, $c)"), "populate-returns", db.where(ps), "_populate_self_namespace does not return the inherit result or the template's own body", "base body if inheriting, else own body")
     rc = db.func("runtime._render_context")
     t = src(rc)
-    t = t.replace("(inherit, lclcontext)", "inherit, lclcontext")
-    ctx.check("inherit, lclcontext = _populate_self_namespace(context, tmpl)" in t and "_exec_template(inherit, lclcontext, args=args, kwargs=kwargs)" in t, "executes-base", db.where(rc), "_render_context does not execute what _populate_self_namespace returned", "executes the base-most body with its context")
+    ctx.check(P.has(rc, "($i, $l) = _populate_self_namespace($c, $t)\n_exec_template($i, $l, args=$a, kwargs=$k)"), "executes-base", db.where(rc), "_render_context does not execute what _populate_self_namespace returned", "executes the base-most body with its context")
     wi = db.func("codegen._GenerateRenderMethod.write_inherit")
     c = calls(db.func("codegen._GenerateRenderMethod.write_toplevel"), "self.write_inherit")
     ctx.check(bool(c) and src(c[0].args[0]) == "inherit[-1]", "last-inherit-wins", db.where(c[0]) if c else db.where(wi), "not the last <%inherit> tag is used", "inherit[-1]")
